@@ -319,7 +319,8 @@ class Run:
                 known_hits[v["mechanism"]] = known_hits.get(v["mechanism"], 0) + 1
             else:
                 new_violations.append(v)
-        rdir = os.path.join(VERIF, "replays", self.pid)
+        outbase = os.environ.get("VF_OUT_DIR", VERIF)
+        rdir = os.path.join(outbase, "replays", self.pid)
         lines = []
         for v in new_violations[:20]:
             os.makedirs(rdir, exist_ok=True)
@@ -363,8 +364,8 @@ class Run:
             "wall_s": round(wall, 2),
             "violations": len(new_violations),
         }
-        os.makedirs(os.path.join(VERIF, "evidence"), exist_ok=True)
-        with open(os.path.join(VERIF, "evidence", f"{self.pid}.json"), "w") as f:
+        os.makedirs(os.path.join(outbase, "evidence"), exist_ok=True)
+        with open(os.path.join(outbase, "evidence", f"{self.pid}.json"), "w") as f:
             json.dump(ev, f, indent=1)
             f.write("\n")
         print(
